@@ -125,7 +125,7 @@ def line_pool(kws, rng):
     pool += ["| a | b |", "| 1 | 2 |", "| 1 |", "| 1 | 2 | 3 |", "|", "||", "| a | b", "  | x \\| y | z |", "| \\", "|a|b|"]
     pool += ['"""', "'''", '  """', '"""text', "   '''", '""" trailing', 'x """']
     pool += ["# comment", "#", "# language: en", "# language: de", "# language: zz", "# language:", "#language:fr", "# Language: ru",
-             "  # language: en"]
+             "  # language: en", "# language: DE", "# language: En", "# language: zh-cn", "# language: EN-PIRATE", "# language: de "]
     pool += ["free text", "  indented text", "Feature", "Scenario", "Given", "And", "* ", "*", ":", "::", "\t", "   ", "",
              "Ünïcödé", "Examples", "Rule", "Background"]
     return pool
@@ -228,7 +228,7 @@ def fault_injection(mon, P, rng, ndocs, i18n):
                             injections.append(("ragged_table_row", rl, "      |" + " x |" * (ncol + 1), rl))
                 if it.get("tags"):
                     tl = lines[k + ("tag", 0)]
-                    injections.append(("malformed_tag", tl, "  @ok notatag", tl))
+                    injections.append(("malformed_tag", tl, rng.choice(["  @ok notatag", "  @bug#7 notatag", "  @c# @ok nota#tag"]), tl))
             if c["items"] and c["items"][0]["kind"] != "rule":
                 k0 = key + ("item", 0)
                 it0 = c["items"][0]
@@ -308,7 +308,7 @@ def fault_injection(mon, P, rng, ndocs, i18n):
             tl = [rng.choice(pool) for _ in range(rng.randint(1, 6))]
             at = rng.randrange(len(tl) + 1)
             kind = rng.choice(["malformed_tag", "tag_expected"])
-            tl.insert(at, "  @ok notatag" if kind == "malformed_tag" else "  notatag @x")
+            tl.insert(at, rng.choice(["  @ok notatag", "  @bug#7 notatag"]) if kind == "malformed_tag" else "  notatag @x")
             t3 = "\n".join(tl)
             k, val = call(P.parse_tags, t3)
             mon.case(("fault", "tags", t3), True)
